@@ -345,7 +345,11 @@ def program(draw):
         tk = draw(st.sampled_from(["P", "S", "A"]))
         sources.append(tk)
         steps += [["from_", [["src", tk]]], ["delete", []]]
-        if draw(st.booleans()):
+        if draw(st.integers(0, 3)) == 0:
+            # a WHERE that names a table outside the statement: every reference is qualified then - RETURNING included
+            foreign = True
+            steps.append(["where", [["eq", b.f(tk, "where"), b.f("F", "where")]]])
+        elif draw(st.booleans()):
             steps.append(["where", [b.crit([tk], "where")]])
         if cls == "postgresql" and draw(st.booleans()):
             steps.append(["returning", [b.f(tk, "returning")]])
